@@ -2489,13 +2489,7 @@ impl Server {
         
         // Extract key and value
         let key = match &parts[1] {
-            RespFrame::BulkString(Some(bytes)) => {
-                // Redis compliance: Empty string keys are not allowed
-                if bytes.is_empty() {
-                    return Ok(RespFrame::error("ERR invalid key: empty string keys are not allowed"));
-                }
-                bytes.as_ref().clone()
-            }
+            RespFrame::BulkString(Some(bytes)) => bytes.as_ref().clone(),
             _ => return Ok(RespFrame::error("ERR invalid key format")),
         };
         
@@ -2617,13 +2611,7 @@ impl Server {
         }
         
         let key = match &parts[1] {
-            RespFrame::BulkString(Some(bytes)) => {
-                // Redis compliance: Empty string keys are not allowed
-                if bytes.is_empty() {
-                    return Ok(RespFrame::error("ERR invalid key: empty string keys are not allowed"));
-                }
-                bytes.as_ref()
-            }
+            RespFrame::BulkString(Some(bytes)) => bytes.as_ref(),
             _ => return Ok(RespFrame::error("ERR invalid key format")),
         };
         
@@ -2651,13 +2639,7 @@ impl Server {
         }
         
         let key = match &parts[1] {
-            RespFrame::BulkString(Some(bytes)) => {
-                // Redis compliance: Empty string keys are not allowed
-                if bytes.is_empty() {
-                    return Ok(RespFrame::error("ERR invalid key: empty string keys are not allowed"));
-                }
-                bytes.as_ref().clone()
-            }
+            RespFrame::BulkString(Some(bytes)) => bytes.as_ref().clone(),
             _ => return Ok(RespFrame::error("ERR invalid key format")),
         };
         
@@ -2691,13 +2673,7 @@ impl Server {
         }
         
         let key = match &parts[1] {
-            RespFrame::BulkString(Some(bytes)) => {
-                // Redis compliance: Empty string keys are not allowed
-                if bytes.is_empty() {
-                    return Ok(RespFrame::error("ERR invalid key: empty string keys are not allowed"));
-                }
-                bytes.as_ref().clone()
-            }
+            RespFrame::BulkString(Some(bytes)) => bytes.as_ref().clone(),
             _ => return Ok(RespFrame::error("ERR invalid key format")),
         };
         
